@@ -28,6 +28,7 @@ type gen struct {
 	nonRes []int64
 	highX  []*pt    // on-curve points with n <= x < p (highx.go)
 	twins  [][2]*pt // pairs of on-curve points with x and x+n
+	cubeE  *big.Int // exponent computing cube roots mod p (nil when p mod 9 is neither 4 nor 7); wide.go
 }
 
 var two256 = new(big.Int).Lsh(big1, 256)
@@ -49,6 +50,7 @@ func newGen(g *vlib.Rng) *gen {
 	case 4:
 		e = new(big.Int).Div(new(big.Int).Add(new(big.Int).Lsh(refP, 1), big1), big.NewInt(9))
 	}
+	ge.cubeE = e
 	if e != nil {
 		for y := int64(1); y < 400 && len(ge.smallY) < 40; y++ {
 			c := new(big.Int).Sub(big.NewInt(y*y), big7)
@@ -67,7 +69,7 @@ func newGen(g *vlib.Rng) *gen {
 
 // with returns a generator sharing the precomputed tables but drawing from its own PRNG.
 func (ge *gen) with(g *vlib.Rng) *gen {
-	return &gen{g: g, smallX: ge.smallX, smallY: ge.smallY, nonRes: ge.nonRes, highX: ge.highX, twins: ge.twins}
+	return &gen{g: g, smallX: ge.smallX, smallY: ge.smallY, nonRes: ge.nonRes, highX: ge.highX, twins: ge.twins, cubeE: ge.cubeE}
 }
 
 // make draws one case of the given kind.
@@ -101,6 +103,8 @@ func (ge *gen) make(kind string, oracle bool) Case {
 		return ge.ecmNeg(oracle)
 	case "tweakadd":
 		return ge.tweakAdd(oracle)
+	case "hist":
+		return ge.hist(oracle)
 	default:
 		return ge.hmac(oracle)
 	}
@@ -322,7 +326,7 @@ func (ge *gen) ecdsa(oracle bool) Case {
 			return mk("ecdsa", "der-zero-len", oracle, pk, derRaw(derInt(r), nil), msg)
 		}
 	case 16, 17: // key encodes x+p: forged triple for an on-curve point with tiny x
-		q := ge.smallX[g.Intn(len(ge.smallX))]
+		q := ge.pickSmallX()
 		if g.Bool() {
 			q = refNeg(q)
 		}
@@ -345,7 +349,7 @@ func (ge *gen) ecdsa(oracle bool) Case {
 		if len(ge.smallY) == 0 {
 			return mk("ecdsa", "valid", oracle, pk, sig, msg)
 		}
-		q := ge.smallY[g.Intn(len(ge.smallY))]
+		q := ge.pickSmallY()
 		fs, fm, ok := forgeRef(q)
 		if !ok {
 			return mk("ecdsa", "valid", oracle, pk, sig, msg)
@@ -468,7 +472,7 @@ func (ge *gen) ecdsa(oracle bool) Case {
 		// algebraic triple with a SMALL r: take R = a point with tiny x (discrete log unknown), choose a, b and
 		// the key Q = b^-1 (R - aG); then u1 = a, u2 = b, i.e. r = x(R), s = r/b, m = a*s verify for Q.
 		// (r, s) is valid; (r+n, s) has r in [n, 2^256) and must be refused.
-		R0 := ge.smallX[g.Intn(len(ge.smallX))]
+		R0 := ge.pickSmallX()
 		if g.Bool() {
 			R0 = refNeg(R0)
 		}
@@ -592,7 +596,7 @@ func (ge *gen) schnorr(oracle bool) Case {
 		xv := new(big.Int).Add(refP, big.NewInt(int64(g.Intn(1000))))
 		return mk("schnorr", "pk-ge-p", oracle, be32(xv), sig, msg)
 	case 16: // key x+p of a point with tiny x (cannot be signed for, must be refused at parsing)
-		q := ge.smallX[g.Intn(len(ge.smallX))]
+		q := ge.pickSmallX()
 		return mk("schnorr", "pk-x-plus-p", oracle, be32(new(big.Int).Add(q.x, refP)), sig, msg)
 	case 17: // signature for the key with odd y presented with R negated (odd-Y nonce point)
 		k2 := new(big.Int).SetBytes(g.Bytes(32))
@@ -685,7 +689,7 @@ func (ge *gen) tweak(oracle bool) Case {
 		}
 		return mk("tweak", "base-nonliftable", oracle, ox, be32(xv), hash, []byte{op})
 	case 13: // base x+p
-		q := ge.smallX[g.Intn(len(ge.smallX))]
+		q := ge.pickSmallX()
 		q = refLiftX(q.x)
 		Q2 := refAdd(q, refMul(t, refG()))
 		if Q2 == nil {
